@@ -72,6 +72,16 @@ def desugar(loc, relfile, fn_paths, rules):
                     rewrites.append((v["call"][0], v["call"][1], new))
                     records.append({"fn": fp, "rule": "D3 X.iter().filter(|p| C).copied().collect::<Vec<_>>()  =>  { let mut out = Vec::new(); for p in X.iter() { if C { out.push(*p); } } out }",
                                     "original": src[v["call"][0]:v["call"][1]], "rewritten": new})
+                elif v["rule"] == "D11":
+                    recv = src[v["recv"][0]:v["recv"][1]]
+                    pat = src[v["pat"][0]:v["pat"][1]]
+                    body = src[v["body"][0]:v["body"][1]]
+                    ty = src[v["ty"][0]:v["ty"][1]]
+                    new = ("{ let mut pv_sum: " + ty + " = 0; for " + pat + " in " + recv + " { pv_sum = pv_sum + (" + body
+                           + "); } pv_sum }")
+                    rewrites.append((v["call"][0], v["call"][1], new))
+                    records.append({"fn": fp, "rule": "D11 X.iter().map(|p| E).sum::<T>()  =>  { let mut s: T = 0; for p in X.iter() { s = s + (E); } s }",
+                                    "original": src[v["call"][0]:v["call"][1]], "rewritten": new})
                 elif v["rule"] == "D8":
                     name = src[v["name"][0]:v["name"][1]]
                     new = "std::cmp::" + name
